@@ -246,6 +246,31 @@ def run(spec, out):
             except G.Skip:
                 extra = {}
         if extra:
+            # propagation being stuck is not enough ('(u u)' = 9 has the unique solution u = 3): demand that brute force
+            # finds at least two satisfying assignments that differ on a withheld axis
+            from ..ref import solver as S_
+            from ..gen.expr import expand as _expand, xleaves as _xl
+            exprs_ = list(case.inputs) + list(case.outputs or [])
+            shapes_ = [None if i in positions else tuple(s_) for i, s_ in enumerate(case.in_shapes)] + [None] * len(case.outputs or [])
+            truly = False
+            try:
+                xs_ = [_expand(e_, case.reps) for e_ in exprs_]
+                known_ = S_.leaf_kwargs(xs_, case.kwargs)
+                for v_ in fv:
+                    for e_ in xs_:
+                        for l_ in _xl(e_):
+                            if l_.tname == v_:
+                                known_[l_.name] = int(case.var_sizes[v_][0])
+                sols_ = S_.value_brute(xs_, shapes_, known_, S_.numvals_of(exprs_, xs_), cap=50000)
+                if sols_ is not None and len(sols_) >= 2:
+                    names_ = {l_.name for e_ in xs_ for l_ in _xl(e_) if l_.tname in extra}
+                    truly = any(len({sol[n_] for sol in sols_}) > 1 for n_ in names_)
+            except Exception:
+                truly = False
+            if not truly:
+                out.count("underconstrained_not_confirmed_by_brute_force")
+                extra = {}
+        if extra:
             log = Log()
             args, declared = build(log)
             try:
